@@ -97,9 +97,9 @@ macro "d128_disch" : tactic =>
 /-- the `U128` counterpart of `d192_norm` -/
 macro "d128_norm" : tactic =>
   `(tactic| (
-    try simp only [U128.or_zero, U128.and_zero, U128.imp_nonzero] at *
-    try simp only [U128.w1_le, U128.le_w1, U128.w1_lt, U128.lt_w1, U128.w1_zero, U192.low128,
-      U128_add_toNat, add64_fst_toNat, add64_snd_zero, add64_snd_toNat,
+    try simp only [U128.or_zero, U128.and_zero, U128.imp_nonzero, U128_sub_borrow_eq_zero_iff] at *
+    try simp only [U128.w1_le, U128.le_w1, U128.w1_lt, U128.lt_w1, U128.w1_zero, U192.low128, U128.w0_toNat,
+      U128_add_toNat, U128_sub_toNat, U128_twos_toNat, add64_fst_toNat, add64_snd_zero, add64_snd_toNat,
       UInt64.toNat_ofNat, UInt64.toNat_zero, UInt64.toNat_one, UInt64.reduceToNat,
       Nat.reducePow, Nat.reduceMul, Nat.reduceAdd, Nat.reduceMod,
       ne_eq, not_lt, not_le, gt_iff_lt, ge_iff_le] at *
@@ -107,7 +107,7 @@ macro "d128_norm" : tactic =>
       UInt64.toNat_ofNat, UInt64.reduceToNat, Nat.reducePow, Nat.reduceMul, Nat.reduceMod] at *))
 
 macro "d128_prep" : tactic =>
-  `(tactic| (opt_eqs; d128_norm; d192_norm; (try simp only [U128.toNat_mk, UInt64.toNat_zero,
+  `(tactic| (opt_eqs; d128_norm; d192_norm; d128_norm; (try simp only [U128.toNat_mk, UInt64.toNat_zero,
       Nat.reducePow, Nat.reduceMul, Nat.reduceAdd] at *); i16_norm; i64_norm; toNat_bounds; i16_norm; i64_norm))
 
 end D128.Proofs.Total
